@@ -629,7 +629,7 @@ func (s *State) oblige1(kind, name string, props []string, goal, where, specSrc 
 	s.coll.obls = append(s.coll.obls, o)
 	// after asserting, the fact may be assumed on the rest of the path (only useful for checks in the middle of a path)
 	switch kind {
-	case "post", "invariant-preserved", "decreases", "step", "termination":
+	case "post", "invariant-preserved", "decreases", "step", "termination", "map-order":
 	default:
 		s.assume(goal)
 	}
